@@ -372,6 +372,7 @@ _NEAR = {
     'asinh': ('mpf_asinh', None, 'x', lambda s: -1),
     'log1': ('mpf_log', None, 'x', lambda s: +1 if s else -1),       # argument 1 + x; log(1+x) = x - x^2/2 + ...
     'exp1': ('mpf_exp', None, '1+x', lambda s: +1),                  # exp(x) = (1+x) + x^2/2 + ... for 1+x representable (needs 'mag')
+    'log2': ('mpf_log', None, 'x-x2/2', lambda s: +1),               # argument 1 + x; |log(1+x)| = |x -+ x^2/2| + |x|^3/3 ... (second order)
 }
 
 
@@ -385,7 +386,7 @@ def near_point(p):
     fn, prec, rnd, sign, bc = p['fn'], p['prec'], p['rnd'], p['sign'], p['bc']
     kname, _, base, dirf = _NEAR[fn]
     ob = Ob(wbump(p, bc + 2 * prec + 90 + (2 * (prec + 40) if 'mag' in p else 0)), timeout_s=p.get('_t', 60), mul_precise_bits=4096, max_unroll=60)
-    if fn == 'log1':
+    if fn in ('log1', 'log2'):
         # t = +-man * 2**-k (k concrete), x = 1 + t exactly
         k = p['k']
         man = ob.man('x_man', bc)
@@ -397,8 +398,10 @@ def near_point(p):
             x = (0, xm, -k, k + 1)
         t = (sign, man, -k, bc)
         arg, bt = x, t
-        if k - bc < prec + 24:
+        if fn == 'log1' and k - bc < prec + 24:
             raise Unsupported('shape not in the tiny regime')
+        if fn == 'log2' and 3 * (k - bc) <= (k - bc) + prec + 3:
+            raise Unsupported('third-order term not below an ulp')
     else:
         if 'mag' in p:
             # a concrete binary magnitude: |x| in [2**(mag-1), 2**mag); must satisfy 2*|mag| > prec + 8 so that the deviation of
@@ -414,7 +417,14 @@ def near_point(p):
         arg, bt = x, x
     outs = ob.run(getattr(libelefun, kname), [arg, prec, rnd])
     d = dirf(sign)
-    if base == '1+x':
+    if base == 'x-x2/2':
+        # |log(1+t)| = |t| -+ t^2/2 (+ for t < 0) plus a positive infinitesimal: base magnitude (man*2^(k+1) -+ man^2) * 2^-(2k+1)
+        k = p['k']
+        mm = zt(bt[1])
+        sq = V.narrow_mul(mm, mm, (0, (1 << bc) - 1), (0, (1 << bc) - 1))
+        bman = ((mm << (k + 1)) + sq) if sign else ((mm << (k + 1)) - sq)
+        bexp, bbc, neg = B(-2 * k - 1), k + 1 + bc, z3.BoolVal(bool(sign))
+    elif base == '1+x':
         if 'mag' not in p:
             raise Unsupported('exp1 needs a concrete magnitude')
         k = bc - p['mag']                      # x = +-man * 2**-k
@@ -429,7 +439,7 @@ def near_point(p):
     A = (bman << S) - (B(1) if d < 0 else B(0))
     R = ref_round(A, TRUE, prec, rnd, neg, bbc + S - 1, bbc + S)
 
-    exact_rounding = bbc <= prec        # base representable: the perturbation shortcut must then give the correctly rounded value;
+    exact_rounding = bbc <= prec and base != 'x-x2/2'        # base representable: the perturbation shortcut must then give the correctly rounded value;
                                         # for longer arguments only the SIDE (what enclosure needs) and 4 ulp closeness are demanded:
                                         # mpf_perturb deliberately over-steps there
 
@@ -458,7 +468,7 @@ def near_point_concrete(p, m):
     fn, prec, rnd, sign, bc = p['fn'], p['prec'], p['rnd'], p['sign'], p['bc']
     kname, _, base, dirf = _NEAR[fn]
     man = 1 if bc == 1 else m['x_man']
-    if fn == 'log1':
+    if fn in ('log1', 'log2'):
         k = p['k']
         t = (sign, man, -k, bc)
         arg = libmpf.mpf_add(libmpf.fone, t, 0)
@@ -467,11 +477,13 @@ def near_point_concrete(p, m):
         arg = bt = (sign, man, m['x_exp'] if 'mag' not in p else p['mag'] - bc, bc)
     r = getattr(libelefun, kname)(arg, prec, rnd)
     b = Fraction(1) if base == 'one' else (1 + O.frac_of(bt)) if base == '1+x' else O.frac_of(bt)
+    if base == 'x-x2/2':
+        b = O.frac_of(bt) - O.frac_of(bt) ** 2 / 2
     d = dirf(sign)
     # exact value = b * (1 + d * tiny) in magnitude: any tiny below 2**(-prec-20) gives the same rounding
     tiny = abs(b) * Fraction(1, 1 << (prec + 40))
     exact = b + (tiny if (d > 0) == (b > 0) else -tiny)
-    if bc <= prec or base in ('one', '1+x'):
+    if (bc <= prec or base in ('one', '1+x')) and base != 'x-x2/2':
         ok, det = O.check_rounded(r, exact, prec, rnd)
     else:
         got = O.frac_of(r)
@@ -481,7 +493,7 @@ def near_point_concrete(p, m):
         ok = O.canonical_concrete(tuple(r), prec) and side and abs(got - exact) <= 4 * ulp
         det = 'got %s, which is %s' % (got, 'on the wrong side of the exact value' if not side else 'more than 4 ulp away / not canonical')
     return ok, '%s at %r (prec %d, rounding %s): the exact value is %s %s an infinitesimal; %s' % (
-        'log' if fn == 'log1' else 'exp' if fn == 'exp1' else fn, arg, prec, rnd, '1' if base == 'one' else '1+x' if base == '1+x' else 'x', 'plus' if (d > 0) == (b > 0) else 'minus', det[:300])
+        'log' if fn in ('log1', 'log2') else 'exp' if fn == 'exp1' else fn, arg, prec, rnd, '1' if base == 'one' else '1+x' if base == '1+x' else 'x', 'plus' if (d > 0) == (b > 0) else 'minus', det[:300])
 
 
 # ------------------------------------------------------------------------------ the libmp wrapper honours prec= / dps= / rounding= on every path
